@@ -109,7 +109,8 @@ func init() {
 							}
 						}
 					}
-					sp.Ops = append(sp.Ops, skCodec(0, 1, false, false), skCodec(1, 2, false, true), skCodec(2, 0, false, false), skClear(0), skClear(1))
+					// queries as transitions: a read between two merges must not freeze anything
+					sp.Ops = append(sp.Ops, skCodec(0, 1, false, false), skCodec(1, 2, false, true), skCodec(2, 0, false, false), skClear(0), skClear(1), skRead(0), skRead(1))
 					specs = append(specs, sp)
 				}
 			}
